@@ -21,7 +21,9 @@ from .surface import Form, Printer
 
 NOISE = ['// noise', '// first\n// second', '/* block */', '/* multi\n   line */', "// it's \"q\"", '// { } [ ] ( )',
          '// Table zz { id int }', "/* '); DROP TABLE x; -- */", '// a * b / c', "// note: 'x'", '/* Ref: a.b > c.d */',
-         '//', '/**/', '// ünï 中', '/** banner **/', '/***/', '/* x **/']
+         '//', '/**/', '// ünï 中', '/** banner **/', '/***/', '/* x **/',
+         # a lone carriage return is a character of the comment like any other (only a line feed ends a `//` comment)
+         '// cr\rTable ghost {\r  id int\r}', '/* cr\rinside */']
 
 
 MID_NOISE = [t for t in NOISE if t.startswith('/*') and '\n' not in t]
